@@ -535,7 +535,7 @@ def struct_template(d, gen_id, mode="full", ctx=None):
     D.append(f"    //@ loop {L} head: proof {{ assert(__items@.take(__it{L}.index@ + 1).drop_last() == __items@.take(__it{L}.index@ as int)); }}")
     D.append(f"    //@ loop {L} after: proof {{ assert(__items@.take(__items@.len() as int) == __items@); }}")
     if addressable:
-        D.append(f"    //@ match_str {M}")
+        D.append(f"    //@ match_str {M} opt")     # opt: an emitted body WITHOUT the name dispatch is decided by the loop invariant, not a lost anchor
     if flat is None and not d["allow_unknown"] and names:
         D.append(f"    //@ replace R16{occ_alts}: unknown_field_with_alts(__other, &[$$]) ==> unknown_field_with_alts(__other, {{ let __alts: &[&str] = &[$1]; proof {{ assert(strs(__alts@) =~= {names_seq}); }} __alts }})")
     if flat is not None:
@@ -669,7 +669,7 @@ def quick_structs():
         struct_desc("R12", [], allow_unknown=False),
         struct_desc("R13", [f("a", multiple=True), f("rest", flatten=True)], cpost="map"),
         struct_desc("R14", [f("a"), f("b", default="trait")], from_word=True, from_none=True),
-        struct_desc("R15", [f("host", skip="false"), f("port", skip="false", default="trait"), f("c", skip=True)]),
+        struct_desc("R15", [f("host", skip="false"), f("port", skip="false", default="trait"), f("c", skip=True), f("plain")]),     # `plain` keeps the name dispatch alive when `skip = false` is misread (C01_r7m1)
     ]
 
 
@@ -1009,7 +1009,7 @@ def quick_enums():
                          v("Cfg", "struct", fields=[f("x"), f("y", default="trait")])]),
         enum_desc("E1", [v("OnlyUnit")], rename_all="SCREAMING_SNAKE_CASE"),
         enum_desc("E2", [v("FirstThing", "newtype"), v("SecondThing", "newtype", rename="second_thing_x")], rename_all="camelCase"),
-        enum_desc("E3", [v("Conf", "struct", fields=[f("items", multiple=True), f("z", skip=True)]), v("Other", "struct", fields=[f("q")])], allow_unknown=True),
+        enum_desc("E3", [v("Conf", "struct", fields=[f("items", multiple=True), f("z", skip=True)]), v("Other", "struct", rename="oth", fields=[f("q")])], allow_unknown=True),   # a renamed variant inherits the enum's allow_unknown_fields too (C09_r7m2)
         enum_desc("E4", [v("A", skip=True), v("B", skip=True)]),
         enum_desc("E5", [v("LoremIpsum"), v("DolorSit", word=True), v("Amet", "newtype", skip=True)], rename_all="kebab-case"),
         enum_desc("E6", [v("Strict", word="false"), v("Lax")]),
@@ -1394,7 +1394,8 @@ def random_enum(rng, name):
             v["rename"] = rng.choice(["renamed_v", "x", "Other"]) + str(i)
         if rng.random() < 0.2:
             v["skip"] = True
-        if style == "unit" and not have_word and not v["skip"] and rng.random() < 0.3:
+        # a skipped variant may carry the (single) word annotation too: it must still never be produced (C09, F18)
+        if style == "unit" and not have_word and rng.random() < (0.3 if not v["skip"] else 0.5):
             v["word"] = True
             have_word = True
         if style == "struct":
